@@ -115,3 +115,9 @@ Theorem C10_parse_extensions_code_is_model : forall s,
   pext_result (gen_pext (rd_u 5) s) = parse_extensions s.
 Proof. exact gen_pext_is_model. Qed.
 Print Assumptions C10_parse_extensions_code_is_model.
+
+(* non-vacuity: an unknown extension followed by the leaf_index extension *)
+Example C10_parse_extensions_code_example :
+  pext_result (gen_pext (rd_u 5) ([x07] ++ be 2 2 ++ [xaa; xbb] ++ [x00] ++ be 2 5 ++ be 5 1099511627775)) = Some 1099511627775%Z
+  /\ pext_result (gen_pext (rd_u 5) ([x07] ++ be 2 2 ++ [xaa; xbb])) = None.
+Proof. split; vm_compute; reflexivity. Qed.
